@@ -233,6 +233,14 @@ def check_gate(rep, ix):
         code = want.split("'")[1] if "'" in want else None
         if code:
             rep.ob('R-C11-GATE', site, f'tested code {code} is a registered type code', code in supported, module=m)
+        # the converter reads as tolerantly as the gate that let the file through (the LIS gate indexes with keepGoing=True:
+        # a file it classifies as LIS must not then be refused by a strict reader)
+        for c in common.calls_in(f):
+            if _n(c.func) == 'File.FileRead':
+                kw = {k.arg: _n(k.value) for k in c.keywords}
+                kg = kw.get('keepGoing', _n(c.args[2]) if len(c.args) > 2 else None)
+                rep.ob('R-C11-GATE', site, 'the LIS file is opened in the tolerant mode the type gate used (keepGoing=True)', kg == 'True', found=_n(c), required='keepGoing=True',
+                       node=c, module=m)
 
 
 def _inside(st, anc):
